@@ -4,10 +4,14 @@
    every list of at most MdLen entries over {"", "a", "b"} x {"", "a", "b"}. *)
 EXTENDS Signing, IOUtils
 SX == INSTANCE SequencesExt
-Vec(k, b, f, v) == [kind |-> k, base |-> b, field |-> f, val |-> v]
+Vec(k, b, f, v) == [kind |-> k, base |-> b, field |-> f, val |-> v, layout |-> "exact"]
+\* replies whose data is a window of a larger buffer ("spare": foreign tail, "shared": the request data
+\* lies right behind it): every scalar field, untampered and tampered
+Lay == {[kind |-> "reply", base |-> b, field |-> f, val |-> v, layout |-> y] :
+           b \in 0..1, f \in Fields("reply") \ MdFields, v \in 0..2, y \in Layouts \ {"exact"}}
 Scalar == UNION {{Vec(k, b, f, v) : b \in 0..1, v \in 0..2} : <<k, f>> \in {<<k, f>> \in Kinds \X (Fields("session") \cup Fields("reply")) : f \in Fields(k) \ MdFields}}
 Md     == {Vec("reply", b, f, v) : b \in 0..1, f \in MdFields, v \in MdVals}
-EInit == /\ kind = "" /\ msg = <<>> /\ signed = <<>> /\ tampered = <<>> /\ verdict = "" /\ phase = ""
-         /\ ndJsonSerialize(IOEnv.VERIF_OUT, SX!SetToSeq(Scalar) \o SX!SetToSeq(Md))
+EInit == /\ kind = "" /\ msg = <<>> /\ signed = <<>> /\ tampered = <<>> /\ verdict = "" /\ verdict2 = "" /\ phase = "" /\ buf = <<>>
+         /\ ndJsonSerialize(IOEnv.VERIF_OUT, SX!SetToSeq(Scalar) \o SX!SetToSeq(Md) \o SX!SetToSeq(Lay))
 ENext == FALSE /\ UNCHANGED vars
 =============================================================================
